@@ -306,4 +306,25 @@ def findOctopusBase (g : Graph) (ids : List Nat) : Except Fail (List Nat) :=
   | [_, _] => findMergeBase g ids
   | c0 :: others => octopusOuter g others [c0]
 
+/-! ## specification vocabulary (used by the theorems in Props/C13.lean; nothing here is executed) -/
+
+/-- `Anc g a c`: `a` is `c` or reachable from `c` along parent edges (ancestor-or-self) -/
+inductive Anc (g : Graph) : Nat → Nat → Prop
+  | refl (c : Nat) : Anc g c c
+  | step {a p c : Nat} : p ∈ g.parents c → Anc g a p → Anc g a c
+
+/-- strict ancestor: ancestor-or-self of a parent -/
+def SAnc (g : Graph) (a c : Nat) : Prop := ∃ p, p ∈ g.parents c ∧ Anc g a p
+
+/-- common ancestor of `c1` and (at least one of) `c2s` -/
+def CA (g : Graph) (c1 : Nat) (c2s : List Nat) (x : Nat) : Prop :=
+  Anc g x c1 ∧ ∃ c2, c2 ∈ c2s ∧ Anc g x c2
+
+/-- maximal common ancestor: a common ancestor that is not a strict ancestor of another one -/
+def MaxCA (g : Graph) (c1 : Nat) (c2s : List Nat) (x : Nat) : Prop :=
+  CA g c1 c2s x ∧ ¬ ∃ y, CA g c1 c2s y ∧ SAnc g x y
+
+/-- stamps strictly increase from every parent to its child -/
+def Graph.StrictMono (g : Graph) : Prop := ∀ c p, p ∈ g.parents c → g.ts p < g.ts c
+
 end Dulwich.LCA
